@@ -106,3 +106,47 @@ package errbase
 
 //@ type OpaqueErrno invariant self.details != nil
 //@ type errorFormatter invariant self.err != nil
+
+// ---- type names, migrations (C17, C02) ----
+
+//@ spec func fullNameT(t Type) string
+//@ spec func keyMarkerM(e error) string
+//@ spec func closedReg(r map[TypeKey]TypeKey) bool = forall k TypeKey :: r.has(k) ==> !r.has(r[k])
+//@ spec func resolveKey(r map[TypeKey]TypeKey, k TypeKey) TypeKey = r.has(k) ? r[k] : k
+
+//@ func getFullTypeName
+//@   props C17 C02
+//@   trusted "reflection: the name is a function of the dynamic type only"
+//@   requires err != nil
+//@   ensures result == fullNameT(typeof(err))
+
+//@ func getTypeDetails
+//@   props C17 C02 C04
+//@   requires err != nil
+//@   ensures typeis(err, *opaqueLeaf) ==> result0 == err.(*opaqueLeaf).details.OriginalTypeName && result1 == err.(*opaqueLeaf).details.ErrorTypeMark.FamilyName && result2 == err.(*opaqueLeaf).details.ErrorTypeMark.Extension
+//@   ensures typeis(err, *opaqueLeafCauses) ==> result0 == err.(*opaqueLeafCauses).details.OriginalTypeName && result1 == err.(*opaqueLeafCauses).details.ErrorTypeMark.FamilyName && result2 == err.(*opaqueLeafCauses).details.ErrorTypeMark.Extension
+//@   ensures typeis(err, *opaqueWrapper) ==> result0 == err.(*opaqueWrapper).details.OriginalTypeName && result1 == err.(*opaqueWrapper).details.ErrorTypeMark.FamilyName && result2 == err.(*opaqueWrapper).details.ErrorTypeMark.Extension
+//@   ensures (!typeis(err, *opaqueLeaf) && !typeis(err, *opaqueLeafCauses) && !typeis(err, *opaqueWrapper)) ==> result0 == fullNameT(typeof(err)) && result1 == resolveKey(backwardRegistry, fullNameT(typeof(err)))
+//@   ensures (!typeis(err, *opaqueLeaf) && !typeis(err, *opaqueLeafCauses) && !typeis(err, *opaqueWrapper)) ==> result2 == ((!onlyFamily && hasMethod(typeof(err), "ErrorKeyMarker() string")) ? keyMarkerM(err) : "")
+
+//@ func GetTypeKey
+//@   props C17 C02
+//@   requires err != nil
+//@   ensures (!typeis(err, *opaqueLeaf) && !typeis(err, *opaqueLeafCauses) && !typeis(err, *opaqueWrapper)) ==> result == resolveKey(backwardRegistry, fullNameT(typeof(err)))
+
+//@ global invariant migrations_closed: backwardRegistry != nil && closedReg(backwardRegistry)
+
+//@ func RegisterTypeMigration
+//@   props C17
+//@   requires newType != nil
+//@   requires resolveKey(backwardRegistry, previousPkgPath + "/" + previousTypeName) != fullNameT(typeof(newType))
+//@   maypanic when backwardRegistry.has(fullNameT(typeof(newType)))
+//@   ensures backwardRegistry == old(backwardRegistry)
+//@   ensures backwardRegistry.has(fullNameT(typeof(newType))) && backwardRegistry[fullNameT(typeof(newType))] == resolveKey(old(backwardRegistry), previousPkgPath + "/" + previousTypeName)
+//@   ensures forall x TypeKey :: x != fullNameT(typeof(newType)) ==> backwardRegistry.has(x) == old(backwardRegistry).has(x)
+//@   ensures forall x TypeKey :: x != fullNameT(typeof(newType)) && old(backwardRegistry).has(x) ==> backwardRegistry[x] == (old(backwardRegistry)[x] == fullNameT(typeof(newType)) ? resolveKey(old(backwardRegistry), previousPkgPath + "/" + previousTypeName) : old(backwardRegistry)[x])
+//@   maintains migrations_closed
+//@   loop 1: invariant backwardRegistry == old(backwardRegistry)
+//@           invariant forall x TypeKey :: backwardRegistry.has(x) == (old(backwardRegistry).has(x) || x == newKey)
+//@           invariant backwardRegistry[newKey] == prevKey
+//@           invariant forall x TypeKey :: x != newKey && old(backwardRegistry).has(x) ==> backwardRegistry[x] == ((x in $visited) && old(backwardRegistry)[x] == newKey ? prevKey : old(backwardRegistry)[x])
